@@ -151,6 +151,7 @@ type Step struct {
 	Server    string     `json:"server,omitempty"`
 	Ms        int        `json:"ms,omitempty"`
 	Tag       int        `json:"tag,omitempty"`
+	Retry     bool       `json:"retry,omitempty"` // probe: a call that fails with an error (not a hang) while the client swaps connections is repeated
 }
 
 type CallSpec struct {
